@@ -41,6 +41,9 @@ FLAGS = {
               256: "accepted-by-subdivision-certificate(collinear-piece,-not-under-the-theorem)"},
     "CCirc": {1: "prop:panic-or-not-a-finite-polyline", 2: "prop:end-points-not-preserved", 4: "prop:vertex-further-than-tol-from-circle",
               8: "prop:chord-leaves-K*tol-annulus-or-not-advancing", 128: "tie:centre-not-at-distance-r", 32: "checker-rejected"},
+    "CEll": {1: "prop:panic-or-not-a-finite-polyline", 2: "prop:end-points-not-preserved", 4: "prop:ellipse-vertex-farther-than-tol-from-the-ellipse",
+             8: "prop:ellipse-arc-point-farther-than-K*tol-from-its-chord", 16: "prop:ellipse-vertices-not-advancing-in-sweep-direction", 128: "tie:centre-not-the-centre-of-an-ellipse-through-the-end-points",
+             256: "info:vertex-or-chord-undecided"},
     "CArcCube": {1: "prop:panic-or-non-finite", 2: "prop:cubics-not-joined", 8: "prop:|conic(B t)-1|>4e-3-not-excluded"},
     "CXMono": {1: "prop:panic-or-non-finite", 4: "prop:pieces-do-not-rejoin-to-the-curve", 8: "prop:piece-not-x-monotone", 32: "checker-rejected"},
     "CPub": {1: "prop:panic-or-receiver-modified", 2: "prop:subpath-count-changed", 4: "prop:subpath-start/end-moved",
